@@ -20,6 +20,39 @@ theorem search_path_order (executable : Path) :
   · left; simp [h]
   · right; simp [h]
 
+/-- `libexec_only_for_bin`: a location is searched iff it is the executable's
+directory, or it is the sibling `libexec` **and** the base name of the
+executable's directory is exactly `"bin"` — a directory whose name merely
+ends in, starts with or resembles `bin` (`sbin`, `cabin`, `bin2`, `Bin`) does
+not bring `../libexec` into the search path. -/
+theorem libexec_only_for_bin (executable p : Path) :
+    p ∈ searchPaths executable ↔
+      p = dir executable ∨
+      (p = dir (dir executable) ++ ["libexec"] ∧ (dir executable).getLast? = some "bin") := by
+  rcases search_path_order executable with ⟨hb, hp⟩ | ⟨hb, hp⟩
+  · rw [hp]; simp [hb]
+  · rw [hp]; simp [hb]
+
+/-- Consequence for the whole lookup: when the executable's directory is not
+called exactly `bin` and holds no bundle, the lookup fails with "unable to
+locate" — whatever the sibling `libexec` (or anything else) holds. -/
+theorem no_bin_no_libexec_lookup (fs : Path → LocState) (executable : Path) (goos goarch : Bytes)
+    (hb : (dir executable).getLast? ≠ some "bin") (habs : fs (dir executable) = .absent) :
+    executableForPlatform fs executable goos goarch = .error .locate := by
+  rcases search_path_order executable with ⟨hb', _⟩ | ⟨_, hp⟩
+  · exact absurd hb' hb
+  · unfold executableForPlatform
+    rw [hp]
+    simp [searchLoop, habs]
+
+/-- Near misses of `bin` concretely. -/
+example : searchPaths ["usr", "sbin", "mutagen"] = [["usr", "sbin"]] ∧
+    searchPaths ["home", "robin", "mutagen"] = [["home", "robin"]] ∧
+    searchPaths ["opt", "Bin", "mutagen"] = [["opt", "Bin"]] ∧
+    searchPaths ["opt", "bin2", "mutagen"] = [["opt", "bin2"]] ∧
+    searchPaths ["usr", "bin", "mutagen"] = [["usr", "bin"], ["usr", "libexec"]] := by
+  decide
+
 /-- `first_bundle_wins`: if every location before `p` has no bundle and `p`
 holds one, that bundle is used — whatever the later locations hold (another
 bundle, a directory, something unreadable). -/
